@@ -4,7 +4,7 @@ The library is modelled as an abstract machine over a global store `G`; the stor
 *regenerated* table `Gen.globals` (every package-level `var`), and `Gen.globalWrites` lists every syntactic non-read use
 of one of them (assignment also through field/index/pointer, increment/decrement, address taken, method call).  Both tables
 are rewritten from /repo's source on every run by /verif/extract, so a new package-level variable or a new write site
-breaks `repo_readonly` / `globals_table`.  The race detector run of the conc op family searches for a failing schedule.
+breaks `repo_readonly` / `globals_immutable` (unless it is a read-only value or table).  The race detector run of the conc op family searches for a failing schedule.
 -/
 import SpatialId.Gen.Globals
 namespace SpatialId.C19
@@ -39,7 +39,15 @@ theorem result_independent_of_schedule {G A R} (op : Op G A R) (hro : ∀ g a, (
 /-- **repo_readonly**: the regenerated table of non-read uses of package-level variables is empty -/
 theorem repo_readonly : Gen.globalWrites = [] := by decide
 
-/-- **globals_table**: the only package-level variable is the constant `transform.alt25 = 2^25` -/
-theorem globals_table : Gen.globals = [("transform", "alt25", "= math.Pow(2, 25)")] := by decide
+/-- **globals_immutable**: every package-level variable is a `value` (scalar, string, array of those, `errors.New` value:
+only a non-read use of its name can change it) or a `table` (slice or map of scalars whose every use other than indexing,
+`len`, `cap`, `range` is listed in `globalWrites`); none is a pointer, struct, interface, channel, sync type or other
+reference.  Together with `repo_readonly` the library keeps no mutable package-level state; a new read-only constant
+table does not break this, a cache, pool or scratch buffer does. -/
+theorem globals_immutable : ∀ g ∈ Gen.globals, g.2.2.1 = "value" ∨ g.2.2.1 = "table" := by decide
+
+/-- the unchanged tree has exactly one package-level variable, the constant `transform.alt25 = 2^25` (informative: the
+obligation is `globals_immutable`, which other read-only variables would also meet) -/
+example : Gen.globals.length = 1 := by decide
 
 end SpatialId.C19
